@@ -124,6 +124,11 @@ def gen_sig(rng):
         params.append({"name": next(it), "kind": "kwonly", "ann": rng.choice((None, "arr", "int")), "default": rng.random() < 0.4})
     if varkw:
         params.append({"name": next(it), "kind": "varkw", "ann": rng.choice((None, "int")), "default": False})
+    if rng.random() < 0.25:
+        # some annotations are written as strings (forward references / `from __future__ import annotations` style):
+        # the decorated function's signature must show them exactly as the plain one does
+        for p in params:
+            p["quoted"] = p["ann"] is not None and rng.random() < 0.6
     return params
 
 
@@ -135,7 +140,7 @@ def sig_src(params, as_lambda=False):
         if p["kind"] != "posonly" and not did_slash and any(q["kind"] == "posonly" for q in params):
             parts.append("/")
             did_slash = True
-        a = "" if (p["ann"] is None or as_lambda) else f": _jtv_T{i}"
+        a = "" if (p["ann"] is None or as_lambda) else (f': "_jtv_T{i}"' if p.get("quoted") else f": _jtv_T{i}")
         d = f" = _jtv_D{i}" if p["default"] else (f"=_jtv_D{i}" if False else "")
         if p["kind"] == "var":
             parts.append(f"*{p['name']}{a}")
